@@ -13,7 +13,7 @@ PROPERTY = "C07"
 LEVEL = "exploration"
 RULE = (
     "case = (statement kind in {match, await, when, match-finished}, and/or tree over distinct leaves, "
-    "ordered subset of the leaves as event sequence, noise mode); quick enumerates ALL trees with <=4 leaves x ALL ordered "
+    "ordered subset of the leaves as event sequence, mode in {plain, noisy (irrelevant and repeated events), dups, aged (>5 s virtual idle time before every event)}); quick enumerates ALL trees with <=4 leaves x ALL ordered "
     "subsets (thorough: <=5 leaves, sampled 6-7); non-trivial = formula has both an `and` and an `or`, or >=3 leaves, "
     "and the marker's first-true index was actually compared; distinct = (kind, tree, sequence, mode)"
 )
@@ -107,7 +107,11 @@ def cases(tier, seed):
             leaves = ["E%d" % j for j in range(nl)]
             for t in trees(leaves):
                 for seq in _seqs(leaves, True):
-                    modes = ("noisy",) if nl >= 4 else ("noisy", "plain")
+                    # "aged": more than 5 s of (virtual) idle time pass before every event, so the interpreter's clean-up of
+                    # long-finished flow instances runs between the members of a group finishing and the group completing
+                    modes = ("noisy", "aged") if nl >= 4 else ("noisy", "plain", "aged")
+                    if kind == "match" or nl == 1:
+                        modes = tuple(m for m in modes if m != "aged") or ("plain",)
                     for mode in modes:
                         i += 1
                         yield {"id": i, "kind": kind, "tree": t, "seq": seq, "mode": mode}
@@ -121,7 +125,7 @@ def cases(tier, seed):
         k = rng.randint(1, nl)
         seq = rng.sample(leaves, k)
         i += 1
-        yield {"id": i, "kind": rng.choice(KINDS), "tree": t, "seq": seq, "mode": rng.choice(["noisy", "plain", "dups"])}
+        yield {"id": i, "kind": rng.choice(KINDS), "tree": t, "seq": seq, "mode": rng.choice(["noisy", "plain", "dups", "aged"])}
 
 
 def _rand_tree(rng, leaves):
@@ -153,7 +157,7 @@ def run_case(case):
             full += [e, "X", e]
     else:
         full = list(seq)
-    obs = {"events_fed": 0, "formulas_with_and_or": 0}
+    obs = {"events_fed": 0, "formulas_with_and_or": 0, "cases_with_idle_time_between_events": int(mode == "aged")}
     groups = len(dnf(t))
     sample = {"kind": kind, "formula": render(t, lambda x: x), "events": full}
     base = {
@@ -174,6 +178,8 @@ def run_case(case):
     exp = None
     err = None
     for i, e in enumerate(full):
+        if mode == "aged":
+            L["clock"].advance(6.5)
         try:
             out = v2h.run(st, {"type": e})
         except Exception as ex:  # escaping exception = the statement failed to behave like the formula
